@@ -14,7 +14,7 @@ EXPLANATION = (
     "colour i, and the stamped window must keep the existing voxels outside the thresholded template. "
     "get_start_end_indices: the four window vectors are compared with the clipped-window closed forms on integer samples "
     "(inside / partly outside / fully outside). extract_subvolume fills with the volume mean. symmetrize_volume: for n in "
-    "2..12 the loop is unrolled; the rotations must be exactly {Rz(k*360/n)}, the accumulator initialised, the sum divided by n.")
+    "2..12 the loop is unrolled; the rotations must be exactly {Rz(k*360/n)}, the accumulator initialised, the sum divided by n. crop: the window is centred on crop_coord as given (box centre by default).")
 ASSUMPTIONS = TRUSTED + ["scipy.ndimage.affine_transform(input, matrix) computes output[o] = input[matrix @ o] (pull-back) with spline "
                          "interpolation; interpolation accuracy and exact voxel permutation are SciPy's"]
 
